@@ -4,9 +4,10 @@ ensureQubitActive): evaluator side of C03 (handles stay distinct) and C06 (measu
 import re, os
 from tools import cxx2c
 from tools.cxx2c import Lower, Unsupported, kids, qt, qt_sugar, strip, strip_parens, callee_name, norm_type
+from tools.cxx2c import REPO as _REPO
 
 NAME = 'QBK'
-SRC = '/repo/src/bloch/runtime/runtime_evaluator.cpp'
+SRC = _REPO + '/src/bloch/runtime/runtime_evaluator.cpp'
 FUNCS = ['unmarkMeasured', 'markMeasured', 'ensureQubitExists', 'ensureQubitActive', 'releaseQubit', 'allocateTrackedQubit']
 AST_FILTER = ['RuntimeEvaluator::' + f for f in FUNCS]
 SHIM = 'qbk.h'
